@@ -84,9 +84,10 @@ func (id *c18Ident) show() string {
 // Clean pools: no ':' '=' or empty strings, no name ends in a histogram
 // suffix (_count/_sum/_mean/_pNN), so two different identities can never
 // render alike and a reported series maps back to exactly one identity.
-var c18Names = []string{"requests_total", "latency_ms", "db_ops", "cache_lookups", "q", "searches", "errors", "load", "x", "queue_depth", "m1", "M1"}
+var c18Names = []string{"requests_total", "latency_ms", "db_ops", "cache_lookups", "q", "searches", "errors", "load", "x", "queue_depth", "m1", "M1",
+	"lookups\xff", "lookups\xfe"} // (names and values that are not valid UTF-8 - a Latin-1 file name used as a tag - differing in that one byte)
 var c18Keys = []string{"operation", "success", "cache_hit", "host", "zone", "method", "status", "k1", "k2", "K1", "shard", "a"}
-var c18Vals = []string{"true", "false", "load", "save", "GET", "POST", "a", "b", "0", "1", "us_east", "A"}
+var c18Vals = []string{"true", "false", "load", "save", "GET", "POST", "a", "b", "0", "1", "us_east", "A", "caf\xe9.yml", "caf\xe8.yml"}
 var c18Kinds = []string{"counter", "counter", "counter", "gauge", "histogram", "histogram", "timer"}
 
 func c18TagCount(r *rand.Rand) int {
@@ -915,7 +916,7 @@ func c18ShowTags(t map[string]string) string {
 	return "{" + strings.Join(p, ",") + "}"
 }
 
-var c18OpNames = []string{"load", "save", "search", "index", "merge", "import", "backup", "reload"}
+var c18OpNames = []string{"load", "save", "search", "index", "merge", "import", "backup", "reload", "imp\xf6rt", "imp\xe4rt"}
 
 func c18PickOps(r *rand.Rand) []string {
 	p := r.Perm(len(c18OpNames))
@@ -1263,8 +1264,57 @@ func c18ManySeries(ctx *Ctx, r *rand.Rand) {
 	})
 }
 
+// c18CustomBuckets: histograms built with bucket bounds of the caller's own (the exported constructor): bounds below zero, a
+// first bound of zero, very wide and very narrow ones. Count, Sum and Mean account for every observation and percentiles
+// never decrease as the percentile grows (probed every half per cent).
+func c18CustomBuckets(ctx *Ctx, r *rand.Rand) {
+	sets := [][]float64{{-10, -5, 0, 5, 10}, {-100, -1}, {0, 1, 2}, {-0.5}, {1e-9, 1e9}, {-1e6, -1e3, -1, -1e-3}, {5}, {-3, 3}, {0.1, 0.2, 0.4, 0.8, 1.6, 3.2}, {-273.15, 0, 36.6, 100}}
+	for k := 0; k < ctx.Pick(4, 40); k++ {
+		b := sets[(k+ctx.Shard)%len(sets)]
+		h := metrics.NewHistogramWithBuckets("custom", append([]float64(nil), b...), nil)
+		cs := map[string]interface{}{"part": "histogram with bucket bounds of the caller's own", "bounds": fmt.Sprint(b)}
+		ctx.R.Begin(cs)
+		n := 2 + r.Intn(60)
+		var sum float64
+		lo, hi := b[0]-math.Abs(b[0])-1, b[len(b)-1]+math.Abs(b[len(b)-1])+1
+		var obs []float64
+		ctx.R.Guard("C18", "Histogram/custom-buckets", cs, func() {
+			for i := 0; i < n; i++ {
+				v := lo + r.Float64()*(hi-lo)
+				if r.Intn(3) == 0 { // clustered in one bucket (often the first)
+					v = b[0] - r.Float64()*math.Abs(b[0]+1)
+				}
+				v = math.Round(v*8) / 8 // (exact sums)
+				h.Observe(v)
+				obs = append(obs, v)
+				sum += v
+			}
+			ctx.R.Eval(int64(n))
+			if h.Count() != int64(n) || h.Sum() != sum {
+				ctx.R.Violate(vlib.Violation{Property: "C18", Clause: "histogram-total-lost", Path: "Histogram/custom-buckets",
+					Detail: fmt.Sprintf("bounds %v: Count() = %d, Sum() = %v after %d observations summing to %v", b, h.Count(), h.Sum(), n, sum), Witness: cs})
+				return
+			}
+			prev, prevP := math.Inf(-1), -1.0
+			for p := 0.0; p <= 100; p += 0.5 {
+				v := h.Percentile(p)
+				if !(v >= prev) {
+					ctx.R.Violate(vlib.Violation{Property: "C18", Clause: "percentile-order", Path: "Histogram/custom-buckets",
+						Detail:  fmt.Sprintf("bounds %v, %d observations: Percentile(%v) = %v < Percentile(%v) = %v", b, n, p, v, prevP, prev),
+						Witness: map[string]interface{}{"case": cs, "observations": fmt.Sprint(obs)}})
+					return
+				}
+				prev, prevP = v, p
+			}
+			ctx.R.Path("custom-bucket-histograms", 1)
+			ctx.R.Nontriv("custom-buckets", fmt.Sprint(b), n)
+		})
+	}
+}
+
 func engineC18Seq(ctx *Ctx) {
 	r := vlib.NewRand(ctx.Seed, ctx.Shard, "metrics")
+	c18CustomBuckets(ctx, vlib.NewRand(ctx.Seed, ctx.Shard, "metrics-custom-buckets"))
 	if ctx.Shard%4 == 1 || ctx.NShards < 4 {
 		c18ManySeries(ctx, r)
 	}
